@@ -188,10 +188,13 @@ TEXT = {
                       "the target was seen but is not valid; C03_valid_exts_exact: get_valid_exts reports a bit iff recorded, resolved by find_link "
                       "and valid). Every reported edge is a K-1 overlap in walking orientation (edge_overlap, four orientation cases), so for "
                       "any walk along reported edges sequence_of_path spells exactly the walked nodes' k-mers in order (C03_walk_sequence); "
-                      "max_path always returns such a walk with no node twice (C03_maxPath_walk, both arms). Symmetry of edges and equality of "
-                      "the adjacency set with the (K+1)-mers of the reads are executable predicates on pipeline graphs; max_path_beam is not modelled.",
+                      "max_path always returns such a walk with no node twice (C03_maxPath_walk, both arms). C03_edges_symmetric: in every graph "
+                      "satisfying the node-level invariant GInv (terminal k-mers identify node and side, extensions reciprocal, a palindromic "
+                      "single-k-mer node recording them from either strand) every reported edge is reported back from the facing side, the two "
+                      "sides of such a node counting as one; GInv is decidable (ginvOK, proved sound) and evaluated on every pipeline graph of "
+                      "the crate. Equality of the adjacency set with the (K+1)-mers of the reads is an executable predicate; max_path_beam is not modelled.",
         "design_ref": "DESIGN.md section 6, C03",
-        "level_note": COMMON_NOTE + "Partial: edge symmetry / adjacency = (K+1)-mers at graph level by execution.",
+        "level_note": COMMON_NOTE + "Partial: GInv is assumed for symmetry (checked executably on the crate's graphs, not yet derived from C01); adjacency = (K+1)-mers by execution.",
         "technique": "Lean 4 proof (case analysis of link resolution, bit-level exactness of pruning, overlap algebra of walks, invariant of the greedy best-path loop) + differential correspondence with executable predicates",
     },
     "C18": {
@@ -259,7 +262,10 @@ TEXT = {
     "C20": {
         "level_text": "Proved for the model of the GFA export: every L record is an edge reported from the side it names (soundness) and, on graphs with "
                       "symmetric edge lists, every adjacency - between nodes, circular self-link, hairpin self-link on either side - is written at "
-                      "least once (completeness; this is the clause that D6 violated). Multiplicity, JSON well-formedness and serde round trips are "
+                      "least once (completeness; this is the clause that D6 violated); gfa_links_complete_ginv derives the symmetry needed from "
+                      "the node-level invariant GInv (C03). gfa_no_duplicate: for EVERY graph no two L records name the same pair of ports in "
+                      "either order (edges of one side go to pairwise different ports; the id filters admit each adjacency from one end only) - "
+                      "with completeness: exactly once. JSON well-formedness and serde round trips are "
                       "decided by execution: records re-read into port pairs and counted, the JSON parsed with serde_json and its counts compared "
                       "with the graph, round trips of k-mers / strings / Lmers / extension sets / graphs compared by equality and queries. Two "
                       "defects (D5 JSON trailing comma, D6 missing right hairpin) were found by this check and repaired in /repo.",
